@@ -20,7 +20,9 @@ configurations, histories, schedules and fault patterns against a reference, and
 what such a checker would still overlook; round 4 was told the same about the widened checker
 (dtypes, sizes, object histories, casts, copies, sibling objects) and asked for yet another
 kind of slip; round 5 was told about the round-4 widenings as well and asked to prefer realistic
-conditions over rare ones. Every change was confirmed before being kept: the patch applies, the library
+conditions over rare ones; round 6 was asked for maintenance-type mistakes (refactors,
+vectorisation, API tidy-ups, shortcuts, caches, dtype hygiene) in code paths the earlier rounds
+had not touched. Every change was confirmed before being kept: the patch applies, the library
 imports, the demonstration exits non-zero with the change and zero without, and all 1848
 baseline-passing tests still pass with it (`tools/eval_mutation.py`, scratch worktree under
 /tmp, removed afterwards). The checks are run against each change applied to /repo itself
@@ -59,7 +61,17 @@ def main():
         runs = m.get("runs", [])
         P = m["property"]
         missed_first = bool(m.get("strengthening")) or (m.get("first_sight", {}).get("caught") is False)
-        now = "caught" if runs and P in runs[-1].get("caught_by", []) else ("thorough tier only" if m.get("thorough_only") else ("not detected" if m.get("not_taken_up") else "MISSED"))
+        others = [c for c in (runs[-1].get("caught_by", []) if runs else []) if c != P]
+        if runs and P in runs[-1].get("caught_by", []):
+            now = "caught"
+        elif others:
+            now = "caught by " + ",".join(others)
+        elif m.get("thorough_only"):
+            now = "thorough tier only"
+        elif m.get("not_taken_up"):
+            now = "not detected"
+        else:
+            now = "MISSED"
         rows.append(f"| {m['id']} | {title} | {'MISSED' if missed_first else 'caught'} | {now} |")
         r = m.get("round", 0)
         pr = per_round.setdefault(r, [0, 0, 0])
